@@ -471,9 +471,9 @@ func c18Jobs(tier string) []Job {
 	}
 	for _, sh := range bShapes() {
 		sh := sh
-		jobs = append(jobs, Job{Name: "C18/builder/go/" + sh.String(), Run: func(jc *JobCtx) { runBuilderSeq(jc, sh, false, contLen) }})
+		jobs = append(jobs, Job{Name: fmt.Sprintf("C18/builder/go/%s/cont%d", sh.String(), contLen), Run: func(jc *JobCtx) { runBuilderSeq(jc, sh, false, contLen) }})
 		if tier == "thorough" || sh.total() <= 4 {
-			jobs = append(jobs, Job{Name: "C18/builder/mm/" + sh.String(), Run: func(jc *JobCtx) { runBuilderSeq(jc, sh, true, contLen) }})
+			jobs = append(jobs, Job{Name: fmt.Sprintf("C18/builder/mm/%s/cont%d", sh.String(), contLen), Run: func(jc *JobCtx) { runBuilderSeq(jc, sh, true, contLen) }})
 		}
 	}
 	// concurrent fill: one thread per segment; the shared state is the list-level CAS in NewLevel
@@ -521,7 +521,7 @@ func c18Jobs(tier string) []Job {
 				continue
 			}
 			m := masks
-			jobs = append(jobs, Job{Name: fmt.Sprintf("C18/merger/%v", m), Run: func(jc *JobCtx) { runMerger(jc, m, depth) }})
+			jobs = append(jobs, Job{Name: fmt.Sprintf("C18/merger/%v/depth%d", m, depth), Run: func(jc *JobCtx) { runMerger(jc, m, depth) }})
 		}
 	}
 	return jobs
